@@ -261,7 +261,7 @@ def execute(sc):
     for fs in sc.get('foreign', []):
         ctl.spawn(fs['name'], foreign_thread, fs)
     ctl.start()
-    if not ctl.finished.wait(sc.get('wall', 6.0)):
+    if not rt.wait_finished(ctl, sc.get('wall', 6.0)):
         ctl.status = 'stuck'
     ctl.log('End', status=ctl.status if ctl.status in ('ok', 'hang') else 'stuck')
     return rt.result_payload(ctl, {'invocations': ncall[0]})
